@@ -47,6 +47,21 @@ CLAIMED = {
    '-coverappend are not judged; HTML rendering is out of scope.',
    'TLA+ reference semantics with ghost statement counters evaluated by TLC; replay of exported programs through the real CLI '
    'with and without coverage; profile parsed and compared with the predicted block partition and counts'),
+ 'C02': ('DESIGN.md section 3 / C02',
+   'Two TLA+ models. Guards.tla crosses every site where a script-controlled value reaches a conversion or a limit (48 sites: field '
+   'indexes, NF, ARGC, substr/printf/exit/srand/int arguments, subscripts, RS/FS/SUBSEP/CONVFMT/OFMT/modes, dynamic regexes, names, '
+   'recursion) with the value classes that matter (22 numeric classes from -1e30 over the field limit and int32/int53/int64 '
+   'boundaries to inf/nan; 15 string classes incl. non-UTF-8, NUL, 70 KB, invalid regexes) and 5 configurations, and prescribes the '
+   'outcome class the statement demands (must-error for runaway recursion, oversized field numbers and invalid dynamic regexes; '
+   'no-panic otherwise); all 2,486 cases are run under recover(). StackMachine.tla abstracts the VM to operand counts, stack '
+   'effects, successors and table indexes of all 94 opcodes; TLC explores every path of every code block of 500-2,000 REAL compiled '
+   'programs under all branch outcomes (no underflow, jumps on instruction boundaries inside the block, balanced blocks, indexes in '
+   'range), and the table is validated against every instruction the real VM executed in those programs (verif step hook, '
+   'Trace_StackMachine).',
+   'Trusted: TLC, the two specifications, the harness spelling table of sites and values. Not covered: byte-level fuzzing of '
+   'large inputs, memory exhaustion below the coded limits. A fault of the static pass alone is reported as exit 2.',
+   'TLA+ guard table and abstract stack machine model-checked by TLC over real compiled code; replay under recover(); TLC '
+   'validation of recorded per-instruction stack effects'),
  'C06': ('DESIGN.md section 3 / C06',
    'TLC checks exhaustively (all operation histories up to depth 4-5 over a menu of ~60 operation instances) that the lazy '
    'record representation refines the abstract AWK record of spec/Record.tla; every history of <= 3 operations exported by '
